@@ -136,25 +136,13 @@ func c17(c *Ctx) {
 			if len(validT) == 0 {
 				c.R.Bad(load.FuncName(upd)+": valid flag", c.pos(chk[0].Pos()), "no flag that is cleared whenever a parent constraint fails guards the selection")
 			}
-			n := 0
-			for _, x := range cfgx.Calls(upd, func(ci ssa.CallInstruction) bool { return strings.HasSuffix(cfgx.CalleeName(ci), "semver.Version).Original") }) {
-				// Original() of the loop variable v (selected in this iteration) or of targetVersion (remembered)
-				n++
-				recv := x.Common().Args[0]
-				if recv == cfgx.CallArgs(chk[0])[0] {
-					c.requireCross(site(x)+" valid", x, validT, "every parent constraint accepted v")
-				} else {
-					// targetVersion: each leaf is v remembered under valid
-					for _, leaf := range phiLeaves(recv) {
-						if cfgx.IsNilConst(leaf) || isPhiVal(leaf) {
-							continue
-						}
-						c.R.Check(leaf == cfgx.CallArgs(chk[0])[0], site(x)+" remembered-is-checked", c.pos(x.Pos()), "the remembered version is a checked loop version", "the remembered version is not one that was checked")
-					}
-				}
-			}
-			// the remembering assignment (phi edge carrying v into targetVersion) happens on valid ∧ downgradesEnabled
-			var dgT []cfgx.Edge
+			// where does the checked version v become (part of) the chosen one? Directly
+			// (v.Original() is what is returned) or by being carried into a variable whose
+			// Original() is returned later. Each such adoption needs: every parent
+			// constraint accepted v, and v is not older than the current version or
+			// downgrades are enabled.
+			v := cfgx.CallArgs(chk[0])[0]
+			var dgT, notOlder []cfgx.Edge
 			for _, b := range upd.Blocks {
 				for _, in := range b.Instrs {
 					if ld, ok := in.(*ssa.UnOp); ok && ld.Op == token.MUL {
@@ -165,26 +153,82 @@ func c17(c *Ctx) {
 					}
 				}
 			}
-			v := cfgx.CallArgs(chk[0])[0]
-			nAssign := 0
-			for _, b := range upd.Blocks {
-				for _, in := range b.Instrs {
-					phi, ok := in.(*ssa.Phi)
-					if !ok {
-						break
+			for _, x := range cfgx.Calls(upd, func(ci ssa.CallInstruction) bool {
+				n := cfgx.CalleeName(ci)
+				return (strings.HasSuffix(n, "semver.Version).GreaterThan") || strings.HasSuffix(n, "semver.Version).Equal")) && ci.Common().Args[0] == v
+			}) {
+				t, _ := cfgx.CallCondEdges(x)
+				notOlder = append(notOlder, t...)
+			}
+			type adoption struct {
+				at   ssa.Instruction
+				what string
+			}
+			var adopt []adoption
+			seenPhi := map[*ssa.Phi]bool{}
+			var carried func(recv ssa.Value, use ssa.Instruction)
+			carried = func(recv ssa.Value, use ssa.Instruction) {
+				switch {
+				case recv == v:
+					adopt = append(adopt, adoption{use, "used"})
+				case cfgx.IsNilConst(recv):
+				default:
+					phi, isPhi := recv.(*ssa.Phi)
+					if !isPhi {
+						c.R.Bad(site(use.(ssa.CallInstruction))+" remembered-is-checked", c.pos(use.Pos()), "the chosen version is not one that was checked")
+						return
 					}
+					if seenPhi[phi] {
+						return
+					}
+					seenPhi[phi] = true
 					for i, e := range phi.Edges {
-						if e == v && strings.HasSuffix(phi.Type().String(), "semver.Version") {
-							nAssign++
-							pred := b.Preds[i]
-							okV, _ := cfgx.MustCross(pred.Instrs[len(pred.Instrs)-1], validT, nil)
-							okD, _ := cfgx.MustCross(pred.Instrs[len(pred.Instrs)-1], dgT, nil)
-							c.R.Check(okV && okD && len(dgT) > 0, load.FuncName(upd)+": downgrade candidate only if valid ∧ downgradesEnabled", c.pos(firstPos(pred)), "a lower version is remembered only when valid and downgrades are enabled", "a downgrade candidate is remembered although it is invalid or downgrades are disabled")
+						pred := phi.Block().Preds[i]
+						if e == v {
+							adopt = append(adopt, adoption{pred.Instrs[len(pred.Instrs)-1], "remembered"})
+						} else if q, ok := e.(*ssa.Phi); ok {
+							carried(q, use)
+						} else if !cfgx.IsNilConst(e) {
+							c.R.Bad(site(use.(ssa.CallInstruction))+" remembered-is-checked", c.pos(use.Pos()), "a remembered version is not one that was checked")
 						}
 					}
 				}
 			}
-			if n < 2 || nAssign == 0 {
+			for _, x := range cfgx.Calls(upd, func(ci ssa.CallInstruction) bool {
+				return strings.HasSuffix(cfgx.CalleeName(ci), "semver.Version).Original")
+			}) {
+				carried(x.Common().Args[0], x)
+			}
+			up, down := 0, 0
+			outer := outermostLoopOf(upd, chk[0].Block())
+			for i, a := range adopt {
+				okV, wV := cfgx.MustCross(a.at, validT, c.posf())
+				c.R.Check(okV, load.FuncName(upd)+": version "+a.what+" #"+itoa(i)+" valid", c.pos(a.at.Pos()), "every parent constraint accepted the version", "a version can be chosen although a parent constraint rejected it", wV...)
+				okU, _ := cfgx.MustCross(a.at, notOlder, nil)
+				okD, _ := cfgx.MustCross(a.at, dgT, nil)
+				okE, wE := cfgx.MustCross(a.at, union(notOlder, dgT), c.posf())
+				c.R.Check(okE && (len(dgT) > 0 || okU), load.FuncName(upd)+": downgrade candidate only if valid ∧ downgradesEnabled #"+itoa(i), c.pos(a.at.Pos()), "an older version is chosen only when downgrades are enabled", "a downgrade candidate is remembered although it is invalid or downgrades are disabled", wE...)
+				switch {
+				case okU:
+					up++
+					// the first not-older version wins: the scan does not go on
+					if outer != nil {
+						var out []cfgx.Edge
+						for k := range a.at.Block().Succs {
+							out = append(out, cfgx.Edge{From: a.at.Block(), Idx: k})
+						}
+						reach, _ := cfgx.ReachFromEdges(out, nil)
+						goesOn := reach[cfgx.LoopHeader(outer)]
+						if _, isCall := a.at.(ssa.CallInstruction); isCall {
+							goesOn = cfgx.InstrReaches(a.at, cfgx.LoopHeader(outer).Instrs[0], nil)
+						}
+						c.R.Check(!goesOn, load.FuncName(upd)+": first not-older version wins #"+itoa(i), c.pos(a.at.Pos()), "the scan stops at the first valid not-older version", "the scan goes on after a valid not-older version: a higher one than the lowest would be chosen")
+					}
+				case okD:
+					down++
+				}
+			}
+			if up == 0 || down == 0 {
 				c.R.Unknown(load.FuncName(upd)+": selection sites", c.pos(upd.Pos()), "expected the upgrade return and the downgrade candidate")
 			}
 			// all parent constraints are parsed (loop without skip; failure returns error)
@@ -252,10 +296,21 @@ func c17(c *Ctx) {
 				t, _ := cfgx.CallCondEdges(x)
 				notOlder = append(notOlder, t...)
 			}
-			for _, r := range cfgx.ReturnsFromLoop(outer) {
-				if nonNilError(r) == "nil" {
-					c.requireCross(load.FuncName(fn)+": early return only for a not-older version", r, notOlder, "v >= current")
+			// the scan over the versions ends early (a return or a break out of it) only for a not-older version
+			_, early := cfgx.OnlyHeaderExits(outer)
+			for i, e := range early {
+				fails := !edgeIn(e, notOlder)
+				for _, r := range cfgx.ReturnsReachable([]cfgx.Edge{e}, nil) {
+					if nonNilError(r) != "nonnil" {
+						fails = false
+					}
 				}
+				if fails {
+					continue // the search is given up with an error
+				}
+				okx, w := cfgx.MustCross(e.From.Instrs[len(e.From.Instrs)-1], notOlder, c.posf())
+				okx = okx || edgeIn(e, notOlder)
+				c.R.Check(okx, load.FuncName(fn)+": early return only for a not-older version #"+itoa(i), c.pos(firstPos(e.From)), "the scan is left early only with v >= current", "the scan over the versions can stop early at a version that is older than the current one", w...)
 			}
 		}
 	}
@@ -385,7 +440,10 @@ func c17(c *Ctx) {
 		if l != nil {
 			by, w = cfgx.LoopBypass(l, map[*ssa.BasicBlock]bool{store.Block(): true}, nil, c.posf())
 		}
-		isRanged := flow.Strict.Any(store.Value, func(v ssa.Value) bool { _, ok := v.(*ssa.Range); return ok }) || flow.Strict.Any(store.Value, func(v ssa.Value) bool { ia, ok := v.(*ssa.IndexAddr); return ok && flow.Root(ia.X) == ssa.Value(au.Params[1]) })
+		isRanged := flow.Strict.Any(store.Value, func(v ssa.Value) bool { _, ok := v.(*ssa.Range); return ok }) || flow.Strict.Any(store.Value, func(v ssa.Value) bool {
+			ia, ok := v.(*ssa.IndexAddr)
+			return ok && flow.Root(ia.X) == ssa.Value(au.Params[1])
+		})
 		c.R.Check(!by && isRanged, load.FuncName(au)+": every supplied node is stored", c.pos(store.Pos()), "each supplied node is written to the graph, known or not", "a supplied node can be left out (an existing entry is kept)", w...)
 	}
 
